@@ -213,6 +213,181 @@ func (c *Ctx) resolveNames() {
 			setField(mus[0], "InvalidationIndex", "mu")
 		}
 	}
+	// ---- helper types re-identified by shape
+	scope := pkg.Scope()
+	pw.CanonType = cn.typ
+	setType := func(tn *types.TypeName, canon string) {
+		if tn.Name() != canon {
+			cn.typ[tn] = canon
+			note("type " + canon + " is " + tn.Name())
+		}
+	}
+	methodNames := func(tn *types.TypeName) map[string]bool {
+		out := map[string]bool{}
+		ms := types.NewMethodSet(types.NewPointer(tn.Type()))
+		for i := 0; i < ms.Len(); i++ {
+			if len(ms.At(i).Index()) == 1 { // declared on the type itself
+				out[ms.At(i).Obj().Name()] = true
+			}
+		}
+		return out
+	}
+	var detached, expNon, expGen, bucketNon, bucketGen []*types.TypeName
+	for _, n := range scope.Names() {
+		tn, ok := scope.Lookup(n).(*types.TypeName)
+		if !ok || tn.Exported() || tn.IsAlias() {
+			continue
+		}
+		st, ok := tn.Type().Underlying().(*types.Struct)
+		if !ok {
+			continue
+		}
+		named, _ := tn.Type().(*types.Named)
+		generic := named != nil && named.TypeParams().Len() > 0
+		ms := methodNames(tn)
+		hasCtxField, hasMu := false, false
+		var mapToEntry *types.Var
+		for i := 0; i < st.NumFields(); i++ {
+			f := st.Field(i)
+			if types.TypeString(f.Type(), nil) == "context.Context" {
+				hasCtxField = true
+			}
+			if isMutexType(f.Type()) {
+				hasMu = true
+			}
+			if m, ok := f.Type().Underlying().(*types.Map); ok {
+				if p, ok := m.Elem().(*types.Pointer); ok && strings.HasPrefix(namedTypeNameRaw(p.Elem()), "TraitEntry") {
+					mapToEntry = f
+				}
+			}
+		}
+		if hasCtxField && (ms["Deadline"] || ms["Done"] || ms["Value"]) {
+			detached = append(detached, tn)
+		}
+		if ms["ExpiredAt"] && ms["Value"] && ms["Error"] {
+			if generic {
+				expGen = append(expGen, tn)
+			} else {
+				expNon = append(expNon, tn)
+			}
+		}
+		if hasMu && mapToEntry != nil {
+			if generic {
+				bucketGen = append(bucketGen, tn)
+			} else {
+				bucketNon = append(bucketNon, tn)
+			}
+		}
+	}
+	one := func(l []*types.TypeName, canon string) *types.TypeName {
+		if len(l) == 1 {
+			setType(l[0], canon)
+			return l[0]
+		}
+		return nil
+	}
+	if tn := one(detached, "detachedContext"); tn != nil {
+		st := tn.Type().Underlying().(*types.Struct)
+		for i := 0; i < st.NumFields(); i++ {
+			if f := st.Field(i); types.TypeString(f.Type(), nil) == "context.Context" && !f.Embedded() {
+				setField(f, "detachedContext", "parent")
+			}
+		}
+	}
+	one(expNon, "errExpired")
+	one(expGen, "errExpiredOf")
+	for _, bt := range []struct {
+		l     []*types.TypeName
+		canon string
+	}{{bucketNon, "hashedBucket"}, {bucketGen, "hashedBucketOf"}} {
+		tn := one(bt.l, bt.canon)
+		if tn == nil {
+			continue
+		}
+		st := tn.Type().Underlying().(*types.Struct)
+		for i := 0; i < st.NumFields(); i++ {
+			if _, ok := st.Field(i).Type().Underlying().(*types.Map); ok {
+				setField(st.Field(i), bt.canon, "data")
+			}
+		}
+		// the shard array of the backend that uses this bucket type
+		for _, n := range scope.Names() {
+			otn, ok := scope.Lookup(n).(*types.TypeName)
+			if !ok {
+				continue
+			}
+			ost, ok := otn.Type().Underlying().(*types.Struct)
+			if !ok {
+				continue
+			}
+			for i := 0; i < ost.NumFields(); i++ {
+				f := ost.Field(i)
+				var el types.Type
+				switch x := f.Type().Underlying().(type) {
+				case *types.Array:
+					el = x.Elem()
+				case *types.Slice:
+					el = x.Elem()
+				}
+				if el != nil {
+					if en, ok := el.(*types.Named); ok && en.Origin().Obj() == tn {
+						setField(f, canonTypeName(otn), "hashedBuckets")
+					}
+				}
+			}
+		}
+	}
+	// backend implementation types: the unexported struct embedded by pointer in the exported wrapper
+	for _, b := range backends {
+		if _, st := structOf(pkg, b.Wrapper); st != nil {
+			for i := 0; i < st.NumFields(); i++ {
+				f := st.Field(i)
+				if !f.Embedded() {
+					continue
+				}
+				if p, ok := f.Type().(*types.Pointer); ok {
+					if en, ok := p.Elem().(*types.Named); ok && !en.Obj().Exported() && en.Obj().Pkg() == pkg {
+						setType(en.Origin().Obj(), b.Name)
+					}
+				}
+			}
+		}
+	}
+	// Trait.expirationsSet: the unexported int64 counter of Trait
+	if _, st := structOf(pkg, "Trait"); st != nil && structField(st, "expirationsSet") == nil {
+		var cands []*types.Var
+		for i := 0; i < st.NumFields(); i++ {
+			if f := st.Field(i); !f.Exported() && types.TypeString(f.Type(), nil) == "int64" {
+				cands = append(cands, f)
+			}
+		}
+		if len(cands) == 1 {
+			setField(cands[0], "Trait", "expirationsSet")
+		}
+	}
+	// package-level registry of gob types: a uint64 fingerprint and a set of reflect.Type
+	pw.CanonGlobal = map[types.Object]string{}
+	var hashVars, setVars []*types.Var
+	for _, n := range scope.Names() {
+		v, ok := scope.Lookup(n).(*types.Var)
+		if !ok || v.Exported() {
+			continue
+		}
+		if types.TypeString(v.Type(), nil) == "uint64" {
+			hashVars = append(hashVars, v)
+		}
+		if m, ok := v.Type().Underlying().(*types.Map); ok && types.TypeString(m.Key(), nil) == "reflect.Type" {
+			setVars = append(setVars, v)
+		}
+	}
+	if len(hashVars) == 1 && hashVars[0].Name() != "gobTypesHash" {
+		pw.CanonGlobal[hashVars[0]] = "gobTypesHash"
+		note("variable gobTypesHash is " + hashVars[0].Name())
+	}
+	if len(setVars) == 1 && setVars[0].Name() != "gobTypes" {
+		pw.CanonGlobal[setVars[0]] = "gobTypes"
+		note("variable gobTypes is " + setVars[0].Name())
+	}
 	// ---- helper functions re-identified by signature (only when the canonical name is gone)
 	byCanon := map[string]bool{}
 	c.eachFuncDecl(func(_ *ast.FuncDecl, fn *types.Func) { byCanon[strings.TrimPrefix(rawFuncName(fn), "cache.")] = true })
@@ -246,6 +421,17 @@ func (c *Ctx) resolveNames() {
 		}},
 		{"Trait.expireAt", func(fn *types.Func, sig *types.Signature, recv string) bool {
 			return recv == "Trait" && sig.Results().Len() == 2 && types.TypeString(sig.Results().At(0).Type(), nil) == "time.Duration" && under(sig.Results().At(1).Type()) == "int64"
+		}},
+		{"recursiveTypeHash", func(fn *types.Func, sig *types.Signature, recv string) bool {
+			if recv != "" || sig.Params().Len() < 2 || types.TypeString(sig.Params().At(0).Type(), nil) != "reflect.Type" {
+				return false
+			}
+			for i := 1; i < sig.Params().Len(); i++ {
+				if strings.HasPrefix(types.TypeString(sig.Params().At(i).Type(), nil), "hash.Hash") {
+					return true
+				}
+			}
+			return false
 		}},
 		{"ts", func(fn *types.Func, sig *types.Signature, recv string) bool {
 			return recv == "" && sig.Params().Len() == 1 && sig.Results().Len() == 1 && types.TypeString(sig.Params().At(0).Type(), nil) == "time.Time" && under(sig.Results().At(0).Type()) == "int64"
@@ -318,11 +504,22 @@ func (c *Ctx) resolveNames() {
 	}
 }
 
+// lookupType returns the type the rules know as canon (its actual declaration).
+func (c *Ctx) lookupType(canon string) *types.TypeName {
+	for tn, n := range cn.typ {
+		if n == canon {
+			return tn
+		}
+	}
+	tn, _ := c.Pkg.Types.Scope().Lookup(canon).(*types.TypeName)
+	return tn
+}
+
 // rawFuncName is pw.FuncName without canonicalisation.
 func rawFuncName(fn *types.Func) string {
-	saved := pw.CanonFunc
-	pw.CanonFunc = nil
-	defer func() { pw.CanonFunc = saved }()
+	saved, savedT := pw.CanonFunc, pw.CanonType
+	pw.CanonFunc, pw.CanonType = nil, nil
+	defer func() { pw.CanonFunc, pw.CanonType = saved, savedT }()
 	return pw.FuncName(fn)
 }
 
@@ -347,4 +544,28 @@ func (c *Ctx) Prepare() {
 	for _, n := range cn.notes {
 		c.R.Notes = append(c.R.Notes, "anchor re-identified by shape: "+n)
 	}
+}
+
+// namedTypeNameRaw is namedTypeName without canonicalisation.
+func namedTypeNameRaw(t types.Type) string {
+	for {
+		switch x := t.(type) {
+		case *types.Pointer:
+			t = x.Elem()
+			continue
+		case *types.Named:
+			return x.Obj().Name()
+		case *types.Alias:
+			return x.Obj().Name()
+		}
+		return ""
+	}
+}
+
+// selFieldName is the canonical name of the field a selection denotes.
+func selFieldName(s *types.Selection) string {
+	if v, ok := s.Obj().(*types.Var); ok {
+		return fname(v)
+	}
+	return s.Obj().Name()
 }
